@@ -97,6 +97,9 @@ func domLiveness(env *Env) error {
 	for i := 0; i < env.Int("priceruns", 4); i++ {
 		unpricedAssetSlashRun(env, seed*110+uint64(i))
 	}
+	// ---- boundary configuration: HistoricalEntries = 1..3 (TrackHistoricalInfo's pruning loop in BeginBlock
+	// reaches height 0 and deletes real entries within a few blocks; dom_conskeys_gate.go)
+	histEntriesBoundary(env, "C11.halt")
 	if env.Int("directed", 1) == 1 {
 		for _, sc := range []struct {
 			name string
